@@ -411,6 +411,24 @@ func (e *Engine) newBig(t *Term) Value {
 	return &Ptr{s}
 }
 
+// asSignedBV recognises an Int term that is the signed (or unsigned, narrower than 64 bits) value of a bit-vector and
+// returns that bit-vector sign/zero-extended to 64 bits, so that small big.Int values stay in bit-vector arithmetic
+// (mixing Int and BV makes the solver slow or undecided).
+func (e *Engine) asSignedBV(x *Term) (*Term, bool) {
+	if x.op == OBv2Nat && x.args[0].sort.W < 64 {
+		return e.b.ZExt(x.args[0], 64), true
+	}
+	if x.op == OIte && x.args[2].op == OBv2Nat && x.args[1].op == OIntSub && x.args[1].args[0] == x.args[2] && x.args[1].args[1].IsConst() {
+		t := x.args[2].args[0]
+		w := t.sort.W
+		two := new(big.Int).Lsh(big.NewInt(1), uint(w))
+		if w <= 64 && x.args[1].args[1].bigv.Cmp(two) == 0 && x.args[0] == e.b.Bin(OBvSLT, t, e.b.BVu(0, w)) {
+			return e.b.SExt(t, 64), true
+		}
+	}
+	return nil, false
+}
+
 func (e *Engine) intAbs(t *Term) *Term {
 	return e.b.Ite(e.b.IntBin(OIntLT, t, e.b.IntI(0)), e.b.IntNeg(t), t)
 }
@@ -454,6 +472,11 @@ func initBig() {
 	reg("Cmp", func(e *Engine, f *frame, a []Value) Value {
 		x, y := e.bigOf(a[0]), e.bigOf(a[1])
 		b := e.b
+		if xb, ok := e.asSignedBV(x); ok {
+			if yb, ok := e.asSignedBV(y); ok {
+				return b.Ite(b.Bin(OBvSLT, xb, yb), b.BVi(-1, 64), b.Ite(b.Eq(xb, yb), b.BVi(0, 64), b.BVi(1, 64)))
+			}
+		}
 		return b.Ite(b.IntBin(OIntLT, x, y), b.BVi(-1, 64), b.Ite(b.Eq(x, y), b.BVi(0, 64), b.BVi(1, 64)))
 	})
 	reg("CmpAbs", func(e *Engine, f *frame, a []Value) Value {
@@ -478,6 +501,9 @@ func initBig() {
 	reg("IsInt64", func(e *Engine, f *frame, a []Value) Value {
 		x := e.bigOf(a[0])
 		b := e.b
+		if _, ok := e.asSignedBV(x); ok {
+			return b.tt
+		}
 		lo := new(big.Int).Neg(pow(2, 63))
 		return b.And(b.IntBin(OIntLE, b.IntC(lo), x), b.IntBin(OIntLT, x, b.IntC(pow(2, 63))))
 	})
@@ -501,7 +527,23 @@ func initBig() {
 			panic(unsupported("big.Int.Exp with modulus"))
 		}
 		if !y.IsConst() {
-			panic(unsupported("big.Int.Exp with symbolic exponent"))
+			// fork over the feasible exponents up to the harness bound (cfg maxExp, default 64)
+			mx := e.cfgInt("maxExp", 64)
+			if e.decide(e.b.IntBin(OIntLT, y, e.b.IntI(0))) {
+				return e.setBig(a[0], e.b.IntI(1))
+			}
+			for k := 0; k <= mx; k++ {
+				if e.decide(e.b.Eq(y, e.b.IntI(int64(k)))) {
+					y = e.b.IntI(int64(k))
+					break
+				}
+			}
+			if !y.IsConst() {
+				e.x.sh.mu.Lock()
+				e.x.sh.assumptions[fmt.Sprintf("bound: big.Int.Exp exponent <= %d (larger exponents outside the claim)", mx)]++
+				e.x.sh.mu.Unlock()
+				panic(pathEnd{"big exponent outside bound"})
+			}
 		}
 		if y.bigv.Sign() <= 0 {
 			return e.setBig(a[0], e.b.IntI(1))
@@ -573,6 +615,9 @@ func initBig() {
 		if x.IsConst() {
 			return e.strConst(x.bigv.String())
 		}
+		if xb, ok := e.asSignedBV(x); ok {
+			return &StrV{b: e.fmtInt(xb, true)}
+		}
 		var out []*Term
 		ax := x
 		if e.decide(e.b.IntBin(OIntLT, x, e.b.IntI(0))) {
@@ -615,6 +660,8 @@ func initBig() {
 		}
 		b := e.b
 		r := b.IntI(0)
+		smallDec := base == 10 && len(s) <= 18 // fits int64: keep the value in bit-vector arithmetic
+		rb := b.BVu(0, 64)
 		rng := func(c *Term, lo, hi byte) *Term {
 			return b.And(b.Bin(OBvULE, b.BVu(uint64(lo), 8), c), b.Bin(OBvULE, c, b.BVu(uint64(hi), 8)))
 		}
@@ -635,6 +682,15 @@ func initBig() {
 				return fail
 			}
 			r = b.IntBin(OIntAdd, b.IntBin(OIntMul, b.IntI(base), r), dv)
+			if smallDec {
+				rb = b.Bin(OBvAdd, b.Bin(OBvMul, rb, b.BVu(10, 64)), b.ZExt(b.Bin(OBvSub, c, b.BVu('0', 8)), 64))
+			}
+		}
+		if smallDec {
+			if neg {
+				rb = b.Neg(rb)
+			}
+			return Tuple{e.setBig(a[0], b.Bv2IntS(rb)), e.b.tt}
 		}
 		if neg {
 			r = b.IntNeg(r)
